@@ -663,6 +663,71 @@ def b_grid(S):
     return out
 
 
+def b_cli(S):
+    tree = ast.parse(S[CLI])
+
+    def option_defaults(fname):
+        fn = find_func(tree, fname)
+        out = {}
+        args = fn.args.args
+        defaults = fn.args.defaults
+        for a, d in zip(args[-len(defaults):], defaults):
+            if isinstance(d, ast.Call) and ast.unparse(d.func) in ("typer.Option", "typer.Argument") and d.args:
+                out[a.arg] = ast.unparse(d.args[0])
+        return fn, out
+
+    fn, tv = option_defaults("tracevalidate")
+    _, nw = option_defaults("network")
+    need_tv = ["allow_fix", "summary", "snap_threshold", "output", "only_area_validation", "allow_empty_area"]
+    need_nw = ["snap_threshold", "determine_branches_nodes", "name", "circular_target_area", "truncate_traces"]
+    for n in need_tv:
+        if n not in tv:
+            raise Untranslatable(f"tracevalidate option {n} not found")
+    for n in need_nw:
+        if n not in nw:
+            raise Untranslatable(f"network option {n} not found")
+    out = "def tracevalidate_defaults : List (String × String) := [" + ", ".join(f'("{n}", "{tv[n]}")' for n in need_tv) + "]\n"
+    out += "def network_defaults : List (String × String) := [" + ", ".join(f'("{n}", "{nw[n]}")' for n in need_nw) + "]\n"
+    # only_area_validation -> choose_validators
+    ifs = [n for n in ast.walk(fn) if isinstance(n, ast.If) and ast.unparse(n.test) == "only_area_validation"]
+    if len(ifs) != 1:
+        raise Untranslatable("only_area_validation branch not found")
+    body_asg = [st for st in ifs[0].body if isinstance(st, (ast.Assign, ast.AnnAssign))]
+    else_asg = [st for st in ifs[0].orelse if isinstance(st, (ast.Assign, ast.AnnAssign))]
+    if len(body_asg) != 1 or len(else_asg) != 1 or ast.unparse(body_asg[0].value) != "(TargetAreaSnapValidator,)" or ast.unparse(else_asg[0].value) != "None":
+        raise Untranslatable("only_area_validation does not choose exactly (TargetAreaSnapValidator,) / None")
+    out += 'def only_area_validators : List String := ["TargetAreaSnapValidator"]\n'
+    # what is passed on to the library
+    calls = [n for n in ast.walk(fn) if isinstance(n, ast.Call) and ast.unparse(n.func) == "Validation"]
+    if len(calls) != 1 or [ast.unparse(a) for a in calls[0].args] != ["traces", "areas", "trace_file.stem", "allow_fix"] or {k.arg: ast.unparse(k.value) for k in calls[0].keywords} != {"SNAP_THRESHOLD": "snap_threshold"}:
+        raise Untranslatable("Validation(...) call of tracevalidate changed")
+    runs = [n for n in ast.walk(fn) if isinstance(n, ast.Call) and ast.unparse(n.func) == "validation.run_validation"]
+    if len(runs) != 1 or {k.arg: ast.unparse(k.value) for k in runs[0].keywords} != {"choose_validators": "choose_validators", "allow_empty_area": "allow_empty_area"}:
+        raise Untranslatable("run_validation(...) call of tracevalidate changed")
+    out += "def tracevalidate_passes_options_through : Bool := true\n"
+    # the only deletion: output_path.unlink() guarded by output_path.exists()
+    unl = [n for n in ast.walk(fn) if isinstance(n, ast.Call) and isinstance(n.func, ast.Attribute) and n.func.attr in ("unlink", "rmtree", "remove", "rmdir")]
+    if len(unl) != 1 or ast.unparse(unl[0]) != "output_path.unlink()":
+        raise Untranslatable(f"tracevalidate deletes something else than output_path: {[ast.unparse(u) for u in unl]}")
+    guard = [n for n in ast.walk(fn) if isinstance(n, ast.If) and ast.unparse(n.test) == "output_path.exists()" and any(unl[0] in list(ast.walk(b)) for b in n.body)]
+    if len(guard) != 1:
+        raise Untranslatable("unlink is not guarded by output_path.exists()")
+    out += 'def tracevalidate_deletes : List String := ["output_path"]\n'
+    # network: Network(...) keyword plumbing
+    nfn = find_func(tree, "network")
+    ncalls = [n for n in ast.walk(nfn) if isinstance(n, ast.Call) and ast.unparse(n.func) == "Network"]
+    if len(ncalls) != 1:
+        raise Untranslatable("Network(...) call of the network command not found")
+    kws = {k.arg: ast.unparse(k.value) for k in ncalls[0].keywords}
+    want = {"trace_gdf": "traces", "area_gdf": "areas", "snap_threshold": "snap_threshold", "determine_branches_nodes": "determine_branches_nodes",
+            "name": "network_name", "circular_target_area": "circular_target_area", "truncate_traces": "truncate_traces"}
+    for k, v in want.items():
+        if kws.get(k) != v:
+            raise Untranslatable(f"network command passes {k}={kws.get(k)} (expected {v})")
+    out += "def network_passes_options_through : Bool := true\n"
+    return out
+
+
 ITEMS: List[Item] = [
     Item("BranchIdentity", BAN, ["C05", "C01"], b_branch_identity, extra_modules=[GENERAL]),
     Item("DegreeToClass", BAN, ["C05", "C01"], b_degree_to_class, extra_modules=[GENERAL]),
@@ -684,6 +749,7 @@ ITEMS: List[Item] = [
     Item("CacheDecorated", GENERAL, ["C17"], b_cache_decorated, extra_modules=[m for m in ALL_MODULES if m != GENERAL]),
     Item("Grid", GRID, ["C18"], b_grid),
     Item("IndexMargins", GENERAL, ["C16"], b_index_margins, extra_modules=[PROX]),
+    Item("Cli", CLI, ["C19"], b_cli),
     Item("RandomRadius", RSAMP, ["C20"], b_random_radius, extra_modules=[GENERAL]),
     Item("AggregateDispatch", SUBS, ["C20"], b_aggregate_dispatch),
 ]
